@@ -23,6 +23,9 @@ PID = "C03"
 CFGS = (Cfg("sync", True, False, "direct"), Cfg("sync", False, False, "direct"),
         Cfg("async", True, False, "facade"), Cfg("async", True, False, "inloop"))
 
+TOLERANT = (Cfg("sync", True, True, "direct"), Cfg("async", True, True, "facade"))
+MIXED = Cfg("async", True, False, "facade")     # identity marks the "mixed" machine variant
+
 XP = [("a", p) for p in ("before", "exit", "on", "enter", "after")] + \
      [("b", p) for p in ("before", "exit", "on", "enter", "after")] + \
      [("c", p) for p in ("before", "on", "after")] + [("__initial__", "enter")]
@@ -72,6 +75,12 @@ def rule_sets(tier):
             for times in (2, 3):
                 key, val = rule(x, ph, "sm", (ev,) * times, 1)
                 out.append((False, ((key, val + ("same",)),)))
+    # guarded ring (s2 has no `a`, `r` exists only in s2): a nested event is judged against the
+    # state it meets when it is dequeued, not against the state at the moment it was sent
+    for ph in ("before", "exit", "on", "enter", "after"):
+        for prov in ("sm", "L1"):
+            for sends in (("r",), ("a", "r"), ("r", "a"), ("a", "a", "r"), ("a",), ("a", "a")):
+                out.append(("guarded", (rule("a", ph, prov, sends, 1),)))
     sbase = [srule(x, ph, "sm", s, 1) for (x, ph) in XP_SPARSE for s in SINGLES]
     for r1, r2 in itertools.combinations(sbase, 2):
         if not _conflict(r1, r2):
@@ -110,9 +119,11 @@ def histories(maxlen):
     return out
 
 
-def run_scenario(rules, hist, cfg, guarded=False, vals=None, sparse=False):
-    """Returns (message|None, pair)."""
-    built = built_for(cfg.engine == "async", guarded, sparse)
+def run_scenario(rules, hist, cfg, guarded=False, vals=None, sparse=False, mixed=False):
+    """Returns (message|None, pair).  mixed: async engine, but the model's and the listener's
+    callbacks are plain functions - a nested send made by one of them cannot be awaited, the
+    event is queued all the same."""
+    built = built_for("mixed" if mixed else cfg.engine == "async", guarded, sparse)
     plan = Plan(rules=dict(rules))
     p = Pair(built, cfg, plan=plan)
     r = p.construct()
@@ -152,11 +163,21 @@ def worker(block):
         for hist in hs:
             if not hist and not any(x == "__initial__" for ((_c, x), _r) in rules):
                 continue
-            for cfg in CFGS:
+            plain_sender = any(c[0] in ("model", "L1") for ((c, _x), _r) in rules)
+            guarded = sparse == "guarded"
+            cfgs = CFGS + ((MIXED,) if plain_sender else ())
+            if guarded:
+                if "c" in hist:
+                    continue
+                cfgs = CFGS + TOLERANT
+            for cfg in cfgs:
                 res.stats["evaluations"] += 1
+                mixed = cfg is MIXED
                 try:
                     with deadline(20):
-                        msg, p = run_scenario(rules, hist, cfg, sparse=sparse)
+                        msg, p = run_scenario(rules, hist, cfg, sparse=(sparse is True),
+                                              mixed=mixed, guarded=guarded,
+                                              vals={"g1": True, "v1": True} if guarded else None)
                 except Ambiguous:
                     res.stats["ambiguous_skipped"] += 1
                     continue
@@ -173,8 +194,9 @@ def worker(block):
                         res.hist["last_result=" + ("None" if v is None else type(v).__name__)] += 1
                     res.stats["states"] += 1
                 if msg:
-                    res.violation({"category": _cat(msg), "engine": cfg.engine, "rtc": cfg.rtc},
-                                  sc_json(rules, hist, cfg, {"sparse": sparse}), msg)
+                    res.violation({"category": _cat(msg), "engine": cfg.engine, "rtc": cfg.rtc,
+                                   "mixed": mixed},
+                                  sc_json(rules, hist, cfg, {"sparse": sparse, "mixed": mixed}), msg)
                 elif len(res.samples) < 1 and rules and len(hist) == 2:
                     res.samples.append(sc_json(rules, hist, cfg, {"sparse": sparse}))
     return res
@@ -297,5 +319,8 @@ def replay(sc):
         msg, _ = run_chain(tuple(x_ph), prov, n, cfg)
         return msg
     rules = [((tuple(r[0]), r[1]), (tuple(r[2]), r[3]) + tuple(r[4:])) for r in sc["rules"]]
-    msg, _ = run_scenario(rules, sc["history"], cfg, sparse=sc.get("sparse", False))
+    guarded = sc.get("sparse") == "guarded"
+    msg, _ = run_scenario(rules, sc["history"], cfg, sparse=(sc.get("sparse") is True),
+                          mixed=sc.get("mixed", False), guarded=guarded,
+                          vals={"g1": True, "v1": True} if guarded else None)
     return msg
